@@ -263,15 +263,18 @@ def run(ctx):
             for (t, lab) in cfg.guards_of(cfg.node_of(n)):
                 if t.kind == "test" and lab == "true":
                     deps |= {role[x] for x in names_in(t.ast) if x in role}
+                    if "math.log10(2)" in norm(t.ast):
+                        deps |= {"maxprec"}
+                        deps.discard("size")
             sites.append(deps)
     if not sites:
         ctx.unrecognised("C11.R6", "_parse_schema", ps.where(), "no decimal raise site found in _parse_schema (validation moved elsewhere)")
     else:
         for w in ({"scale"}, {"precision"}, {"precision", "maxprec"}, {"scale", "precision"}):
             ctx.check("C11.R6", f"a decimal raise guarded by {sorted(w)}", w in sites, ps.where(), f"_parse_schema decimal guards: {[sorted(g) for g in sites]}", f"no rejection depends on exactly {sorted(w)}")
-        mp = [n for n in walk_local(ps.node) if isinstance(n, ast.Assign) and isinstance(n.targets[0], ast.Name) and role.get(n.targets[0].id) == "maxprec"]
-        szv = [k for k, v in role.items() if v == "size"]
-        ok = len(mp) == 1 and bool(szv) and norm(mp[0].value) == f"int(math.floor(math.log10(2) * (8 * {szv[0]} - 1)))"
+        mp = [n for n in ast.walk(ps.node) if isinstance(n, ast.Call) and norm(n.func) == "int" and "math.log10(2)" in norm(n)]
+        szv = [k for k, v in role.items() if v == "size"] + [f"{R.schema}['size']", f"{R.parsed}['size']"]
+        ok = len(mp) == 1 and any(norm(mp[0]) == f"int(math.floor(math.log10(2) * (8 * {sz} - 1)))" for sz in szv)
         ctx.check("C11.R6", "max precision of a fixed decimal is floor(log10(2) * (8*size - 1))", ok, ps.where(mp[0]) if mp else ps.where(), f"_parse_schema: {[norm(x) for x in mp]}", "the precision a fixed size can hold is computed differently from the specification")
 
 
